@@ -5,3 +5,6 @@ HARNESSES += h_fixpo_exact
 HARNESSES += h_histg-interval h_histg-sdbm h_histg-bool_int
 HARNESSES += h_exact-itv h_exact-sdbm h_exact-dbm h_exact-soct h_exact-lift
 HARNESSES += h_fwd-aa_int h_fwd-aa_sdbm h_fwd-aa_bool_int h_fwd-as_disint h_fwd-as_sdbm h_fwd-as_bool_int h_fwd-wint
+HARNESSES += h_transform h_dataflow
+HARNESSES += h_bwd-interval h_bwd-sdbm h_bwd-soct h_bwd-bool_int h_bwd-dbm h_bwd-aa_int
+HARNESSES += h_inter-interval h_inter-sdbm h_inter-bool_int h_inter-bu_sdbm_interval h_inter-bu_interval_interval h_inter-bu_sdbm_sdbm h_inter-bu_term_int_interval
